@@ -400,10 +400,16 @@ def run_impl(cases, timeout=1800):
         env = None
         if any(c.split(' ')[0] in REST_OPS for c in g):
             env = dict(os.environ, VERIF_REST_BIN=build_rest())
+        env = dict(env or os.environ, HARNESS_INDEXED='1')
         rc, out = sh([os.path.join(BIN, 'harness'), 'exec'], inp='\n'.join(g) + '\n', timeout=timeout, env=env)
-        lines = out.split('\n')[:-1]
-        if len(lines) != len(g):
-            raise RuntimeError('harness produced %d answers for %d cases (rc=%d): %s' % (len(lines), len(g), rc, out[-500:]))
+        got = {}
+        for l in out.split('\n'):
+            m = re.match(r'#(\d+)\t(.*)$', l)
+            if m:
+                got[int(m.group(1))] = m.group(2)
+        if not got and g:
+            raise RuntimeError('harness produced no answers for %d cases (rc=%d): %s' % (len(g), rc, out[-500:]))
+        lines = [got.get(i, 'no-answer') for i in range(len(g))]   # (the process died or was cut short after the last answer)
         for i, l in zip(gidx, lines):
             res[i] = l
     if widx:
